@@ -205,29 +205,34 @@ Fixpoint span_netloc (s : str) : str * str :=      (* _splitnetloc(url, 2) after
   | x :: t => if is_delim x then ([], s) else let (a, b) := span_netloc t in (x :: a, b)
   end.
 
+(* url.lstrip(C0 control or space), then '\t' '\r' '\n' removed *)
+Definition clean_url (url0 : str) : str :=
+  filter (fun c => negb ((c =? 9) || (c =? 10) || (c =? 13))) (drop_while (fun c => c <=? 32) url0).
+
+Definition split_scheme (dflt url : str) : str * str :=
+  match break_at C_COLON url with
+  | Some (pre, post) =>
+    match pre with
+    | c0 :: _ => if is_alpha c0 && forallb scheme_char pre
+                 then (map ascii_lower pre, post) else (dflt, url)
+    | [] => (dflt, url)
+    end
+  | None => (dflt, url)
+  end.
+
+Definition split_netloc (url : str) : str * str :=
+  if starts_with [47; 47] url then span_netloc (skipn 2 url) else ([], url).
+
+(* url.split(c, 1) if c in url *)
+Definition split_at (c : N) (url : str) : str * str :=
+  match break_at c url with Some (a, b) => (a, b) | None => (url, []) end.
+
 (* urlsplit(url, scheme=dflt) *)
 Definition urlsplit (dflt : str) (url0 : str) : url5 :=
-  let url := filter (fun c => negb ((c =? 9) || (c =? 10) || (c =? 13)))
-                    (drop_while (fun c => c <=? 32) url0) in
-  let '(scheme, url) :=
-    match break_at C_COLON url with
-    | Some (pre, post) =>
-      match pre with
-      | c0 :: _ => if is_alpha c0 && forallb scheme_char pre
-                   then (map ascii_lower pre, post) else (dflt, url)
-      | [] => (dflt, url)
-      end
-    | None => (dflt, url)
-    end in
-  let '(netloc, url) :=
-    match url with
-    | 47 :: 47 :: rest => span_netloc rest
-    | _ => ([], url)
-    end in
-  let '(url, fragment) :=
-    match break_at C_HASH url with Some (a, b) => (a, b) | None => (url, []) end in
-  let '(url, query) :=
-    match break_at C_QUEST url with Some (a, b) => (a, b) | None => (url, []) end in
+  let '(scheme, url) := split_scheme dflt (clean_url url0) in
+  let '(netloc, url) := split_netloc url in
+  let '(url, fragment) := split_at C_HASH url in
+  let '(url, query) := split_at C_QUEST url in
   (scheme, netloc, url, query, fragment).
 
 (* urlunsplit *)
@@ -276,6 +281,18 @@ Definition filter_mid (l : list str) : list str :=
 
 Definition is_dots (s : str) : bool := str_eqb s s_dot || str_eqb s s_dotdot.
 
+(* the path computation of urljoin: base path [bp], reference path [p] *)
+Definition merge_path (bp p : str) : str :=
+  let bparts := split_on C_SLASH bp in
+  let base_parts := if nilb (last bparts []) then bparts else removelast bparts in
+  let segments :=
+    if starts_with [47] p then split_on C_SLASH p
+    else filter_mid (base_parts ++ split_on C_SLASH p) in
+  let resolved := rev (fold_left resolve_step segments []) in
+  let resolved := if is_dots (last segments []) then resolved ++ [[]] else resolved in
+  let path := join_with C_SLASH resolved in
+  if nilb path then [47] else path.
+
 (* urljoin(base, url) *)
 Definition urljoin (base url : str) : str :=
   if nilb base then url else
@@ -286,15 +303,7 @@ Definition urljoin (base url : str) : str :=
   if mem_str s uses_netloc && negb (nilb n) then urlunparse (s, n, p, pa, q, f) else
   let n := if mem_str s uses_netloc then bn else n in
   if nilb p && nilb pa then urlunparse (s, n, bp, bpa, (if nilb q then bq else q), f) else
-  let bparts := split_on C_SLASH bp in
-  let base_parts := if nilb (last bparts []) then bparts else removelast bparts in
-  let segments :=
-    if starts_with [47] p then split_on C_SLASH p
-    else filter_mid (base_parts ++ split_on C_SLASH p) in
-  let resolved := rev (fold_left resolve_step segments []) in
-  let resolved := if is_dots (last segments []) then resolved ++ [[]] else resolved in
-  let path := join_with C_SLASH resolved in
-  urlunparse (s, n, (if nilb path then [47] else path), pa, q, f).
+  urlunparse (s, n, merge_path bp p, pa, q, f).
 
 (* --------------------------------------------------------- posixpath *)
 Definition all_slash (s : str) : bool := forallb (N.eqb C_SLASH) s.
@@ -338,16 +347,19 @@ Definition normpath (p : str) : str :=
 Definition dir_ref (p : str) : bool :=
   let l := last (split_on C_SLASH p) [] in nilb l || is_dots l.
 
+(* the relative branch: path [p] of a sheet whose href has path [hp] *)
+Definition rebase_path (hp p : str) : str :=
+  let c := normpath (pjoin (psplit_head hp) p) in
+  let c := if dir_ref p then rstrip_char C_SLASH c ++ [C_SLASH] else c in
+  if mem_char C_COLON (hd [] (split_on C_SLASH c)) then [46; 47] ++ c else c.
+
 Definition replacer (href u : str) : str :=
   let '(s, n, p, q, f) := urlsplit [] u in
   if negb (nilb s) || (nilb n && nilb p) then u else
   let '(hs, hn, hp, _, _) := urlsplit [] href in
   if negb (nilb hs) || negb (nilb hn) then urljoin href u else
   if negb (nilb n) || starts_with [47] p then u else
-  let c := normpath (pjoin (psplit_head hp) p) in
-  let c := if dir_ref p then rstrip_char C_SLASH c ++ [C_SLASH] else c in
-  let c := if mem_char C_COLON (hd [] (split_on C_SLASH c)) then [46; 47] ++ c else c in
-  urlunsplit ([], [], c, q, f).
+  urlunsplit ([], [], rebase_path hp p, q, f).
 
 (* the pinned Replacer (before the patch) on its ASCII domain: query and
    fragment dropped, os.path.split/join/normpath, pathname2url = quote *)
